@@ -78,8 +78,25 @@ struct Ctx {
     long viol_cap = 25;          // stored example records per (clause, classes) and worker; counters are always exact
     unsigned check_ctr = 0;
 
+    // A case that is expected to be able to hang (an input class with a recorded non-termination finding) is "armed": the violation
+    // record is formatted in advance, and the alarm handler only write(2)s it (async-signal-safe) and leaves with exit code 98,
+    // which the parent treats as "judged, restart after this case" instead of as an unexplained abort.
+    char armed_buf[6000]; volatile int armed_len = 0;
+    void arm_timeout(const std::string &clause, const std::vector<std::string> &cls_, const std::string &desc, int seconds) {
+        if (clause.empty()) { armed_len = -1; cnt["armed_without_verdict"]++; alarm(seconds); return; }   // only cut the case short (the verdict belongs to C15)
+        std::string cl = "[";
+        for (size_t i = 0; i < cls_.size(); i++) cl += (i ? ",\"" : "\"") + jesc(cls_[i]) + "\"";
+        cl += "]";
+        int n = snprintf(armed_buf, sizeof armed_buf, "{\"t\":\"viol\",\"phase\":\"%s\",\"case\":%ld,\"clause\":\"%s\",\"classes\":%s,\"desc\":\"%s\",\"observed\":\"no return within %d s of CPU-bound execution\"}\n",
+                         jesc(phase_).c_str(), idx, jesc(clause).c_str(), cl.c_str(), jesc(desc.substr(0, 1500)).c_str(), seconds);
+        fflush(out); armed_len = n < (int)sizeof armed_buf ? n : 0;
+        alarm(seconds);
+    }
+    void disarm() { armed_len = 0; alarm(case_limit_s); }
     static void on_alarm(int) {
         if (g_ctx && g_ctx->prog) g_ctx->prog->flag = 1;
+        if (g_ctx && g_ctx->armed_len > 0) { ssize_t w = write(fileno(g_ctx->out), g_ctx->armed_buf, g_ctx->armed_len); (void)w; _exit(98); }
+        if (g_ctx && g_ctx->armed_len < 0) _exit(98);
         _exit(97);
     }
 
@@ -133,7 +150,7 @@ struct Ctx {
     }
     // advance to the next case; true iff this process must execute it
     bool next() {
-        alarm(0);
+        alarm(0); armed_len = 0;
         if (stopped()) return false;
         idx++;
         bool mine;
@@ -149,7 +166,7 @@ struct Ctx {
         alarm(case_limit_s);
         return true;
     }
-    void done_case() { alarm(0); }
+    void done_case() { armed_len = 0; alarm(0); }
 
     // when replaying a single case, say what it is before executing it (so that a hang or crash is still described)
     void announce(const std::string &desc) { if (only >= 0) { fprintf(out, "{\"t\":\"case\",\"case\":%ld,\"desc\":\"%s\"}\n", idx, jesc(desc).c_str()); fflush(out); } }
@@ -180,10 +197,11 @@ struct Ctx {
         }
         return expr.substr(0, 110) + " @ " + file + " in " + fn;
     }
-    void library_abort(const std::string &what, const std::string &desc) {
+    void library_abort(const std::string &what, const std::string &desc, const std::vector<std::string> &inputClasses = {}) {
         std::string sig = assert_sig(what);
         cnt["aborted_by_assert"]++; cls("abort", sig);
-        if (c15()) raw_violation("assertion_failed", {"site:" + sig}, desc, what.substr(0, 400));
+        std::vector<std::string> cl{"site:" + sig}; for (auto &c : inputClasses) cl.push_back(c);
+        if (c15()) raw_violation("assertion_failed", cl, desc, what.substr(0, 400));
     }
     void violation(const std::string &clause, const std::vector<std::string> &cls_, const std::string &desc,
                    const std::string &observed = "") {
